@@ -672,4 +672,40 @@ theorem Padded.not_mem_text {bad : List Char} {x : Padded} (h : x.Ok bad) {c : C
   · exact h.2.2.2 c hc hm
   · have := h.2.1 c hm; rw [hs] at this; cases this
 
+/-! ### the `config` decorator: name selection -/
+
+/-- python's `str.isupper()` read as a statement: some upper-case cased character, no lower-case one -/
+def UpperName (n : Text) : Prop := (∃ c ∈ n, c ∈ casedUppers) ∧ (∀ c ∈ n, c ∉ casedLowers)
+/-- "upper-case public name" of the property text / the decorator's docstring -/
+def PublicUpper (n : Text) : Prop := UpperName n ∧ n.head? ≠ some '_'
+
+theorem pyIsUpper_iff (n : Text) : pyIsUpper n = true ↔ UpperName n := by
+  simp [pyIsUpper, UpperName, List.any_eq_true]
+
+theorem startsWith_us (n : Text) : startsWith ['_'] n = true ↔ n.head? = some '_' := by
+  cases n with
+  | nil => simp [startsWith]
+  | cons b bs =>
+    simp only [startsWith, Bool.and_true, beq_iff_eq, List.head?_cons, Option.some.injEq]
+    exact eq_comm
+
+theorem startsWith_us_false (n : Text) : startsWith ['_'] n = false ↔ n.head? ≠ some '_' := by
+  rw [ne_eq, ← startsWith_us]; simp
+
+theorem isConfigName_iff (n : Text) : isConfigName src n = true ↔ PublicUpper n := by
+  simp [isConfigName, src, Gen.C20.nameTests, nameTest, pyIsUpper_iff, PublicUpper, startsWith_us_false]
+
+theorem decorate1_some {c : Nat} {pre m : Text} {a : Attr} (h : isConfigName src a.name = true) :
+    decorate1 src c pre m a = some ⟨c, a.name, a.default, a.ty, a.parser, a.envOverride, pre, m⟩ := by
+  unfold decorate1
+  rw [if_pos h]
+  simp [src, Gen.C20.wrappedKeeps]
+
+theorem decorate1_none {c : Nat} {pre m : Text} {a : Attr} (h : isConfigName src a.name = false) :
+    decorate1 src c pre m a = none := by
+  simp [decorate1, h]
+
+theorem not_lower_of_upperName {n : Text} (h : UpperName n) : ∀ c ∈ n, c ∉ lowers :=
+  fun c hc hl => h.2 c hc (List.mem_append_left _ hl)
+
 end Config
